@@ -24,6 +24,13 @@ func getFullPath(filename string, appendExt bool) (string, error) {
 	return absPath, nil
 }
 
+// getTemplatePath returns the absolute path of a template, layout or
+// component file by its name. Unlike getFullPath it does not depend
+// on whether a string or a file was evaluated last
+func getTemplatePath(name string) (string, error) {
+	return filepath.Abs(joinPaths(userConfig.TemplateDir, name) + userConfig.TemplateExt)
+}
+
 func joinPaths(path1, path2 string) string {
 	return strings.TrimRight(path1, "/") + "/" + strings.TrimLeft(path2, "/")
 }
